@@ -156,6 +156,7 @@ def sc_c18(env, spec, v, cfg):
     cur = HY_full(spec, v)
     for stepno, st in enumerate(cfg["history"]):
         what = f"C18 step {stepno} {st[0]}"
+        cbuf = h._buffer  # "same buffer" = the one the object lives in NOW (it may have been moved)
         if st[0] in ("set", "setx") and leaves:
             path, lt, lv = leaves[st[1] % len(leaves)]
             lv = _at(cur, path)
@@ -183,7 +184,7 @@ def sc_c18(env, spec, v, cfg):
             where = st[2]
             # the assigned object lives at an ARBITRARY offset of an arbitrary other buffer (it may coincide
             # numerically with the offset of the field it is assigned to)
-            ob = buf if where == "same" else env.buffer(tag=f"o{stepno}", N=1, alignment=1, roomy=4096)
+            ob = cbuf if where == "same" else env.buffer(tag=f"o{stepno}", N=1, alignment=1, roomy=4096)
             other = HY.make_h(ft, ov, _buffer=ob)
             oexp = HY.expected(ft, ov)
             m = env.mark()
@@ -213,7 +214,7 @@ def sc_c18(env, spec, v, cfg):
             ov = strip_refs(rt, second_value(rt, stepno))
             where = st[2]
             if where == "same":
-                other = HY.make_h(rt, ov, _buffer=buf)
+                other = HY.make_h(rt, ov, _buffer=cbuf)
                 m = env.mark()
                 ok, _ = _guard(env, what + f" of a dressed object in the same buffer to reference field {fn}", setattr, h, HY.pyname(spec, fn), other)
                 if ok:
@@ -252,7 +253,7 @@ def sc_c18(env, spec, v, cfg):
                     cur = dict(cur, **{fn: None})
             else:
                 ov = strip_refs(rt, second_value(rt, stepno + 3))
-                other = HY.make_h(rt, ov, _buffer=buf)
+                other = HY.make_h(rt, ov, _buffer=cbuf)
                 ok, _ = _guard(env, what + f" of a struct view in the same buffer to reference field {fn}", setattr, h, HY.pyname(spec, fn), other._xobject)
                 if ok:
                     cur = dict(cur, **{fn: HY_full(rt, ov)})
@@ -264,7 +265,7 @@ def sc_c18(env, spec, v, cfg):
             where = st[1]
             m = env.mark()
             if where == "same":
-                ok, c = _guard(env, what + " into the same buffer", lambda: h.copy(_buffer=buf))
+                ok, c = _guard(env, what + " into the same buffer", lambda: h.copy(_buffer=cbuf))
             elif where == "other":
                 nb = env.fresh(0, tag=f"c{stepno}")
                 ok, c = _guard(env, what + " into another buffer", lambda: h.copy(_buffer=nb))
@@ -291,7 +292,7 @@ def sc_c18(env, spec, v, cfg):
                     hread_ok(env, spec, c, HY.vset(cexp, p2, V.expected(lt2, other_scalar(lt2, x2, 1))), what + ": a write to the original does not show in the copy")
         elif st[0] == "move":
             where = st[1]
-            nb = env.fresh(0, tag=f"m{stepno}") if where == "other" else buf
+            nb = env.fresh(0, tag=f"m{stepno}") if where == "other" else cbuf
             if HY.has_href(spec):
                 raised = False
                 try:
